@@ -38,6 +38,9 @@ def corpus():
     ]
     # user node types with a field that __init__ does not take (set by __post_init__), alone and nested
     ex += [fxn.UPostInit(x), fxn.UPostInit(p.Sum((x, y))), fxn.UPostInitDefault(x), fxn.UPostInitDefault(p.Product((x, 2))), p.Sum((fxn.UPostInit(y), fxn.UPostInitDefault(y), 1))]
+    # expressions as the parser builds them (list literals become a hashable list type of the parser's own)
+    from pymbolic import parse
+    ex += [parse("f([a, b], 1)"), parse("g[(x, y), [x]] + [1, z]"), parse("h((a, b,), c=[d])")]
     # multivectors with symbolic coefficients (containers of expressions, documented as pickleable; their hash is memoized)
     from pymbolic.geometric_algebra import MultiVector, Space
     sp3 = Space(3)
